@@ -21,7 +21,11 @@ import (
 	"fmt"
 	"os"
 	"path/filepath"
+	"runtime"
 	"runtime/debug"
+	"strings"
+	"sync"
+	"time"
 
 	"github.com/ethereum/go-ethereum/rlp"
 
@@ -56,6 +60,20 @@ type Obs struct {
 	Size     int64    // Size() as reported by the decoded object (tx, block), -1 otherwise
 	Problems []string // contradictions between accessors of an accepted object
 	Info     string
+	S0, S1   streamObs // stream entry points: limit = len(x) (also limit 0 and rlp.Decode) / limit = len(x)-1
+	TxReuse  bool      // observation only: decoding into an already used tx.Transaction kept its memoised id
+	Elapsed  time.Duration
+	Alloc    uint64
+}
+
+// streamObs is what rlp.NewStream(bytes.Reader, limit).Decode did (the p2p msg.Decode path).
+type streamObs struct {
+	Ran      bool
+	Verdict  string // accept | reject | panic
+	N        int    // bytes consumed
+	Err      string
+	Reenc    []byte
+	Problems []string
 }
 
 // guard runs f and converts a panic of the code under test into an observation.
@@ -158,7 +176,7 @@ func checkHeader(h *block.Header, canon []byte, o *Obs) {
 }
 
 // observe decodes x through the entry point named by kind with the real types and collects what the property talks about.
-func observe(kind string, x []byte) (o Obs) {
+func observeBytes(kind string, x []byte) (o Obs) {
 	o.Size = -1
 	o.Verdict = "reject"
 	in := bytes.Clone(x) // the decoders must not be able to alias our copy
@@ -177,6 +195,12 @@ func observe(kind string, x []byte) (o Obs) {
 		guard("accessors", &o, func() {
 			o.Reenc, _ = t.MarshalBinary()
 			checkTx(&t, &o)
+			// observation, not judged (production decodes into fresh objects only; Transaction is documented immutable):
+			// a used Transaction keeps its memoised id when decoded into again
+			used := usedTx()
+			if err := used.UnmarshalBinary(bytes.Clone(x)); err == nil && used.ID() != t.ID() {
+				o.TxReuse = true
+			}
 		})
 	case "txrlp":
 		var t tx.Transaction
@@ -200,6 +224,26 @@ func observe(kind string, x []byte) (o Obs) {
 			}
 			_ = l.RootHash()
 		})
+	case "txlist":
+		var l tx.Transactions
+		var err error
+		if !guard("DecodeRLP", &o, func() { err = rlp.DecodeBytes(in, &l) }) {
+			return
+		}
+		if err != nil {
+			o.Err = err.Error()
+			return
+		}
+		o.Verdict = "accept"
+		guard("accessors", &o, func() {
+			o.Reenc, _ = rlp.EncodeToBytes(l)
+			for _, t := range l {
+				var sub Obs
+				checkTx(t, &sub)
+				o.Problems = append(o.Problems, sub.Problems...)
+			}
+			_ = l.RootHash()
+		})
 	case "header":
 		var h block.Header
 		var err error
@@ -214,6 +258,18 @@ func observe(kind string, x []byte) (o Obs) {
 		guard("accessors", &o, func() {
 			o.Reenc, _ = rlp.EncodeToBytes(&h)
 			checkHeader(&h, o.Reenc, &o)
+			// decode into an object that was used before: nothing memoised may survive (Header.DecodeRLP replaces the object)
+			used := usedHeader()
+			if err := rlp.DecodeBytes(bytes.Clone(x), used); err != nil {
+				o.Problems = append(o.Problems, "reused-target-rejects("+err.Error()+")")
+			} else {
+				re, _ := rlp.EncodeToBytes(used)
+				s1, e1 := used.Signer()
+				s2, e2 := h.Signer()
+				if used.ID() != h.ID() || used.SigningHash() != h.SigningHash() || s1 != s2 || (e1 == nil) != (e2 == nil) || !bytes.Equal(re, o.Reenc) {
+					o.Problems = append(o.Problems, "stale-cache(header decoded into a used object reports id/signer of the previous content)")
+				}
+			}
 		})
 	case "block":
 		b := new(block.Block)
@@ -272,6 +328,16 @@ func observe(kind string, x []byte) (o Obs) {
 			}
 			_ = b.Transactions().RootHash()
 			_ = b.String()
+			// decode into a used Block: size / header caches must be those of the new content
+			used := usedBlock()
+			if err := rlp.DecodeBytes(bytes.Clone(x), used); err == nil {
+				re, _ := rlp.EncodeToBytes(used)
+				if used.Size() != b.Size() || used.Header().ID() != b.Header().ID() || !bytes.Equal(re, o.Reenc) {
+					o.Problems = append(o.Problems, "stale-cache(block decoded into a used object reports size/id of the previous content)")
+				}
+			} else {
+				o.Problems = append(o.Problems, "reused-target-rejects("+err.Error()+")")
+			}
 		})
 	case "rcbin", "rcrlp":
 		var r tx.Receipt
@@ -308,10 +374,170 @@ func observe(kind string, x []byte) (o Obs) {
 	default:
 		fatal("unknown kind %q", kind)
 	}
+	return
+}
+
+// observe = the byte-slice entry point (observeBytes) + the stream entry points of the kinds that have one.
+func observe(kind string, x []byte) (o Obs) {
+	o = observeBytes(kind, x)
 	if o.Verdict == "accept" {
 		o.Same = bytes.Equal(o.Reenc, x)
 	}
+	if streamKinds[kind] && o.Verdict != "panic" {
+		o.S0 = observeStream(kind, x, uint64(len(x)), true)
+		if len(x) > 1 {
+			o.S1 = observeStream(kind, x, uint64(len(x)-1), false)
+		}
+		// the documented difference between DecodeBytes and a stream decode is "no trailing data", nothing else
+		if o.S0.Verdict != "panic" && (o.Verdict == "accept") != (o.S0.Verdict == "accept" && o.S0.N == len(x)) {
+			o.Problems = append(o.Problems, fmt.Sprintf("stream-disagrees(DecodeBytes:%s, stream: %s after %d of %d bytes)", o.Verdict, o.S0.Verdict, o.S0.N, len(x)))
+		}
+	}
 	return
+}
+
+var streamKinds = map[string]bool{"txrlp": true, "txlist": true, "header": true, "block": true}
+
+// observeStream decodes the front of x the way p2p does: rlp.NewStream(reader, limit).Decode(&target).
+// allForms: also limit 0 (auto limit of a bytes.Reader) and rlp.Decode(reader) must behave exactly like limit = len(x).
+func observeStream(kind string, x []byte, limit uint64, allForms bool) (so streamObs) {
+	so.Ran = true
+	type res struct {
+		ok    bool
+		n     int
+		err   string
+		reenc []byte
+		size  int64
+		probs []string
+	}
+	one := func(mode int) (r res) {
+		rd := bytes.NewReader(bytes.Clone(x))
+		dec := func(v any) error {
+			switch mode {
+			case 1:
+				return rlp.NewStream(rd, 0).Decode(v)
+			case 2:
+				return rlp.Decode(rd, v)
+			}
+			return rlp.NewStream(rd, limit).Decode(v)
+		}
+		var err error
+		r.size = -1
+		switch kind {
+		case "txrlp":
+			var t tx.Transaction
+			if err = dec(&t); err == nil {
+				r.reenc, _ = rlp.EncodeToBytes(&t)
+				var sub Obs
+				checkTx(&t, &sub)
+				r.probs = sub.Problems
+			}
+		case "txlist":
+			var l tx.Transactions
+			if err = dec(&l); err == nil {
+				r.reenc, _ = rlp.EncodeToBytes(l)
+				for _, t := range l {
+					var sub Obs
+					checkTx(t, &sub)
+					r.probs = append(r.probs, sub.Problems...)
+				}
+			}
+		case "header":
+			var h block.Header
+			if err = dec(&h); err == nil {
+				r.reenc, _ = rlp.EncodeToBytes(&h)
+				var sub Obs
+				checkHeader(&h, r.reenc, &sub)
+				r.probs = sub.Problems
+			}
+		case "block":
+			var b *block.Block // as comm does for MsgNewBlock
+			if err = dec(&b); err == nil {
+				r.reenc, _ = rlp.EncodeToBytes(b)
+				r.size = int64(b.Size())
+				headerAccessors(b.Header())
+				for _, t := range b.Transactions() {
+					txAccessors(t)
+				}
+			}
+		}
+		r.n = len(x) - rd.Len()
+		if err != nil {
+			r.err = err.Error()
+			return
+		}
+		r.ok = true
+		if r.size >= 0 && r.size != int64(r.n) && bytes.Equal(r.reenc, x[:r.n]) {
+			r.probs = append(r.probs, fmt.Sprintf("size-mismatch(stream Size()=%d,consumed=%d)", r.size, r.n))
+		}
+		return
+	}
+	var o Obs
+	if !guard("stream-decode", &o, func() {
+		r := one(0)
+		so.Verdict, so.N, so.Err, so.Reenc, so.Problems = "reject", 0, r.err, nil, r.probs
+		if r.ok {
+			so.Verdict, so.N, so.Reenc = "accept", r.n, r.reenc
+		}
+		if allForms {
+			for mode := 1; mode <= 2; mode++ {
+				q := one(mode)
+				if q.ok != r.ok || (q.ok && (q.n != r.n || !bytes.Equal(q.reenc, r.reenc))) {
+					so.Problems = append(so.Problems, fmt.Sprintf("stream-forms-disagree(limit=len:%v/%d, form %d:%v/%d)", r.ok, r.n, mode, q.ok, q.n))
+				}
+			}
+		}
+	}) {
+		so.Verdict, so.Err = "panic", o.Err
+	}
+	return
+}
+
+// objects that have been decoded and USED before (every memoising accessor called), to decode into again
+var fixture struct {
+	once               sync.Once
+	header, block, txb []byte
+}
+
+func fixtures() {
+	fixture.once.Do(func() {
+		g := newGen(424242)
+		b := g.block(2)
+		fixture.block, _ = rlp.EncodeToBytes(b)
+		fixture.header, _ = rlp.EncodeToBytes(b.Header())
+		fixture.txb, _ = g.tx().MarshalBinary()
+	})
+}
+
+func usedHeader() *block.Header {
+	fixtures()
+	h := new(block.Header)
+	if err := rlp.DecodeBytes(fixture.header, h); err != nil {
+		fatal("fixture header: %v", err)
+	}
+	headerAccessors(h)
+	return h
+}
+
+func usedBlock() *block.Block {
+	fixtures()
+	b := new(block.Block)
+	if err := rlp.DecodeBytes(fixture.block, b); err != nil {
+		fatal("fixture block: %v", err)
+	}
+	_ = b.Size()
+	headerAccessors(b.Header())
+	return b
+}
+
+func usedTx() *tx.Transaction {
+	fixtures()
+	t := new(tx.Transaction)
+	if err := t.UnmarshalBinary(fixture.txb); err != nil {
+		fatal("fixture tx: %v", err)
+	}
+	txAccessors(t)
+	return t
 }
 
 // problemClass strips the numbers from a problem text so that signatures stay stable.
@@ -322,44 +548,160 @@ func problemClass(p string) string {
 	return p
 }
 
+// modelStream is the specification's answer for the stream entry points of one input.
+type modelStream struct {
+	Known      bool
+	S0ok, S1ok bool
+	S0n, S1n   int
+	HaveS1     bool
+}
+
 // judge compares one observation with the specification's verdict (modelOK) and returns the deviations.
-// where: "<site>=<form>" of the case (replay) or "" (mutants: the place is found by diffing).
-func judge(kind string, x []byte, modelKnown, modelOK bool, o Obs, where string) (devs []Deviation) {
-	add := func(sig, what string) {
-		devs = append(devs, Deviation{Sig: sig, What: what, Kind: kind, Input: hex.EncodeToString(x), Reenc: hex.EncodeToString(o.Reenc)})
-	}
-	switch {
-	case o.Verdict == "panic":
-		first := o.Err
-		if i := bytes.IndexByte([]byte(first), '\n'); i >= 0 {
-			first = first[:i]
+// where: "<site>=<form>" of the case (replay) or the mutation (mutants: the place is found by diffing).
+func judge(kind string, x []byte, modelKnown, modelOK bool, o Obs, where string, ms modelStream) (devs []Deviation) {
+	seen := map[string]bool{}
+	add := func(sig, what string, reenc []byte) {
+		if seen[sig] {
+			return
 		}
-		add("panic:"+kind+":"+o.Stage, "real code panicked in "+o.Stage+": "+first)
+		seen[sig] = true
+		devs = append(devs, Deviation{Sig: sig, What: what, Kind: kind, Input: hex.EncodeToString(x), Reenc: hex.EncodeToString(reenc)})
+	}
+	firstLine := func(e string) string {
+		if i := strings.IndexByte(e, '\n'); i >= 0 {
+			return e[:i]
+		}
+		return e
+	}
+	// accepted, but does not re-encode to the same bytes: ONE report PER PLACE where the two encodings part, so that a second
+	// non-canonical site is never hidden behind a (possibly known) first one
+	noncanon := func(how string, in, re []byte, problems []string) {
+		places := diagnoseAll(kind, in, re)
+		for _, place := range places {
+			what := fmt.Sprintf("%s (%s) accepted a %d-byte input that re-encodes to %d different bytes; differs at %v", kind, how, len(in), len(re), places)
+			add("noncanonical-accepted:"+place, what, re)
+		}
+		for _, p := range problems {
+			if problemClass(p) != "size-mismatch" { // the decode-time size IS the input length: implied by the different length
+				add(problemClass(p)+":"+kind, p+" on accepted "+kind+" ("+where+")", re)
+			}
+		}
+	}
+	if o.Verdict == "panic" {
+		add("panic:"+kind+":"+o.Stage, "real code panicked in "+o.Stage+": "+firstLine(o.Err), nil)
 		return
-	case o.Verdict == "accept" && !o.Same:
-		// the property itself: accepted, but does not re-encode to the same bytes
-		place := diagnose(kind, x, o.Reenc)
-		what := fmt.Sprintf("%s accepted a %d-byte input that re-encodes to %d different bytes (first difference at %s)", kind, len(x), len(o.Reenc), place)
-		if len(o.Problems) > 0 {
-			what += fmt.Sprintf("; also %v", o.Problems)
-		}
-		add("noncanonical-accepted:"+place, what)
-		return
 	}
-	if modelKnown {
-		if modelOK && o.Verdict == "reject" {
-			add("verdict-mismatch:"+kind+":"+where+":model=accept,real=reject", "specification accepts, real decoder rejects: "+o.Err)
+	if o.Verdict == "accept" && !o.Same {
+		noncanon("DecodeBytes/UnmarshalBinary", x, o.Reenc, o.Problems)
+	} else {
+		if modelKnown && modelOK && o.Verdict == "reject" {
+			add("verdict-mismatch:"+kind+":"+where+":model=accept,real=reject", "specification accepts, real decoder rejects: "+o.Err, nil)
 		}
-		if !modelOK && o.Verdict == "accept" {
-			add("verdict-mismatch:"+kind+":"+where+":model=reject,real=accept", "specification rejects, real decoder accepts (and re-encodes identically)")
+		if modelKnown && !modelOK && o.Verdict == "accept" {
+			add("verdict-mismatch:"+kind+":"+where+":model=reject,real=accept", "specification rejects, real decoder accepts (and re-encodes identically)", o.Reenc)
+		}
+		if o.Verdict == "accept" {
+			for _, p := range o.Problems {
+				add(problemClass(p)+":"+kind, p+" on accepted "+kind+" ("+where+")", o.Reenc)
+			}
+		} else {
+			for _, p := range o.Problems { // stream-disagrees can also show on a rejected input
+				add(problemClass(p)+":"+kind, p+" on "+kind+" ("+where+")", nil)
+			}
 		}
 	}
-	if o.Verdict == "accept" {
-		for _, p := range o.Problems {
-			add(problemClass(p)+":"+kind, p+" on accepted "+kind+" ("+where+")")
+	// stream entry points
+	for i, so := range []streamObs{o.S0, o.S1} {
+		if !so.Ran {
+			continue
+		}
+		lim := []string{"limit=len", "limit=len-1"}[i]
+		if so.Verdict == "panic" {
+			add("panic:"+kind+":stream-decode", "real code panicked in a stream decode ("+lim+"): "+firstLine(so.Err), nil)
+			continue
+		}
+		if so.Verdict == "accept" && !bytes.Equal(so.Reenc, x[:so.N]) {
+			noncanon("stream, "+lim, x[:so.N], so.Reenc, so.Problems)
+		} else {
+			for _, p := range so.Problems {
+				add(problemClass(p)+":"+kind, p+" on "+kind+" stream decode, "+lim+" ("+where+")", so.Reenc)
+			}
+		}
+		if ms.Known && (i == 0 || ms.HaveS1) {
+			mok, mn := ms.S0ok, ms.S0n
+			if i == 1 {
+				mok, mn = ms.S1ok, ms.S1n
+			}
+			rok := so.Verdict == "accept"
+			canon := !rok || bytes.Equal(so.Reenc, x[:so.N])
+			if canon && (mok != rok || (rok && mn != so.N)) {
+				add(fmt.Sprintf("verdict-mismatch:%s:stream:%s:%s:model=%s/%d,real=%s/%d", kind, lim, where, verdictStr(mok), mn, so.Verdict, so.N),
+					"stream decode ("+lim+"): specification and real decoder disagree on verdict / bytes consumed: "+so.Err, so.Reenc)
+			}
 		}
 	}
 	return
+}
+
+// ---------------------------------------------------------------------------------------------- termination budget
+// "decoding and every accessor terminate": one input gets 1 s + 2 us/byte and 64 MB + 128 B/byte of allocation (decode through
+// every entry point + re-encode + all accessors). Over budget twice in a row = nonterminating:<kind>; once = flaky (Infra).
+const hardTimeout = 20 * time.Second
+
+type budgetStats struct {
+	Flaky int
+	Hung  bool
+	MaxMs float64
+	MaxMB float64
+}
+
+var budget budgetStats
+
+func overBudget(n int, d time.Duration, alloc uint64) bool {
+	return d > time.Second+time.Duration(n)*2*time.Microsecond || alloc > 64<<20+uint64(n)*128
+}
+
+func observeOnce(kind string, x []byte) (o Obs, hung bool) {
+	ch := make(chan Obs, 1)
+	var m0, m1 runtime.MemStats
+	runtime.ReadMemStats(&m0)
+	t0 := time.Now()
+	go func() { ch <- observe(kind, x) }()
+	select {
+	case o = <-ch:
+	case <-time.After(hardTimeout):
+		return Obs{Verdict: "hang", Size: -1, Elapsed: hardTimeout}, true
+	}
+	o.Elapsed = time.Since(t0)
+	runtime.ReadMemStats(&m1)
+	o.Alloc = m1.TotalAlloc - m0.TotalAlloc
+	return o, false
+}
+
+// observeTimed = observe + the termination oracle. dev is non-nil when the budget was exceeded reproducibly.
+func observeTimed(kind string, x []byte) (o Obs, dev *Deviation) {
+	o, hung := observeOnce(kind, x)
+	if ms := float64(o.Elapsed) / 1e6; ms > budget.MaxMs {
+		budget.MaxMs = ms
+	}
+	if mb := float64(o.Alloc) / (1 << 20); mb > budget.MaxMB {
+		budget.MaxMB = mb
+	}
+	if !hung && !overBudget(len(x), o.Elapsed, o.Alloc) {
+		return o, nil
+	}
+	o2, hung2 := observeOnce(kind, x)
+	if hung2 || overBudget(len(x), o2.Elapsed, o2.Alloc) {
+		budget.Hung = budget.Hung || hung2
+		what := fmt.Sprintf("decoding a %d-byte %s input (all entry points, re-encoding, accessors) took %v / allocated %.1f MB, and %v / %.1f MB when repeated (budget: 1 s + 2 us/byte, 64 MB + 128 B/byte; hard stop %v)",
+			len(x), kind, o.Elapsed, float64(o.Alloc)/(1<<20), o2.Elapsed, float64(o2.Alloc)/(1<<20), hardTimeout)
+		if hung2 {
+			o2.Verdict = "hang"
+		}
+		return o2, &Deviation{Sig: "nonterminating:" + kind, What: what, Kind: kind, Input: hex.EncodeToString(clip(x, 4096))}
+	}
+	budget.Flaky++ // over budget once, fine the second time: machine noise, not an observation
+	return o2, nil
 }
 
 type result struct {
@@ -378,6 +720,10 @@ func writeResult(out string, r *result) {
 	if r.Deviations == nil {
 		r.Deviations = []Deviation{}
 	}
+	if r.Extra == nil {
+		r.Extra = map[string]any{}
+	}
+	r.Extra["budget"] = map[string]any{"flaky": budget.Flaky, "max_ms": budget.MaxMs, "max_alloc_mb": budget.MaxMB, "hung": budget.Hung}
 	b, _ := json.MarshalIndent(r, "", " ")
 	if err := os.WriteFile(filepath.Join(out, "result.json"), b, 0o644); err != nil {
 		fatal("write result: %v", err)
@@ -417,9 +763,14 @@ func main() {
 		if err != nil {
 			fatal("hex: %v", err)
 		}
-		o := observe(*kind, x)
-		r := &result{Mode: "one", Evaluations: 1, Deviations: judge(*kind, x, false, false, o, "")}
-		r.Samples = []any{map[string]any{"kind": *kind, "verdict": o.Verdict, "err": o.Err, "same": o.Same, "size": o.Size, "reenc": hex.EncodeToString(o.Reenc)}}
+		o, bd := observeTimed(*kind, x)
+		r := &result{Mode: "one", Evaluations: 1, Deviations: judge(*kind, x, false, false, o, "", modelStream{})}
+		if bd != nil {
+			r.Deviations = append(r.Deviations, *bd)
+		}
+		r.Samples = []any{map[string]any{"kind": *kind, "verdict": o.Verdict, "err": o.Err, "same": o.Same, "size": o.Size, "reenc": hex.EncodeToString(o.Reenc),
+			"stream_limit_len":   fmt.Sprintf("%s after %d bytes %s %v", o.S0.Verdict, o.S0.N, o.S0.Err, o.S0.Problems),
+			"stream_limit_len-1": fmt.Sprintf("%s after %d bytes %s %v", o.S1.Verdict, o.S1.N, o.S1.Err, o.S1.Problems)}}
 		writeResult(*out, r)
 	default:
 		fatal("unknown mode %q", *mode)
